@@ -58,6 +58,9 @@ func e2eKnobs() {
 			logLevel = logging.LvlTrace
 		}
 		logging.Root().SetHandler(logging.FuncHandler(func(r *logging.Record) error {
+			if r.Lvl == logging.LvlTrace {
+				ledgerObserve(r) // event accounting of the deadlock oracle (deadlock.go)
+			}
 			if r.Lvl > logLevel || r.Msg == "Peer throughput measurements updated" {
 				return nil
 			}
@@ -224,6 +227,20 @@ type e2eHarness struct {
 	mu      sync.Mutex
 	dropped map[string]bool
 	counts  map[string]int
+	// deadlock oracle (deadlock.go)
+	led       *ledger
+	honestIDs map[string]bool // peers that answer every body request truthfully (possibly late) in every phase
+	dead      *deadState      // set by sync when it returns "deadlock"
+	directed  interface{}     // the directed scenario's spec and trace, if any (witness only)
+}
+
+func newE2EHarness(c *kit.Ctx, sp e2eSpec, ch *chain, rec *recChain) *e2eHarness {
+	h := &e2eHarness{c: c, sp: sp, ch: ch, rec: rec, dropped: map[string]bool{}, counts: map[string]int{},
+		led: newLedger(), honestIDs: map[string]bool{}}
+	h.master.Store("")
+	setCurLedger(h.led)
+	h.d = downloader.New(rec, nil, rec.db, h.drop, new(event.TypeMux))
+	return h
 }
 
 func (h *e2eHarness) lat(t0 time.Time) {
@@ -251,6 +268,8 @@ type e2ePeer struct {
 	hdrProf int
 	mu      sync.Mutex
 	r       *rand.Rand
+	// script (optional) replaces the PRNG-driven body answers (directed scenario, directed.go)
+	script func(p *e2ePeer, hashes []common.Hash, ans *answer) error
 }
 
 func (p *e2ePeer) Head() (common.Hash, *big.Int) {
@@ -351,6 +370,11 @@ func (p *e2ePeer) RequestHeadersByNumber(origin uint64, amount int, skip int, re
 }
 
 func (p *e2ePeer) RequestBodies(hashes []common.Hash) error {
+	ans := p.beginAnswer()
+	defer ans.release()
+	if p.script != nil {
+		return p.script(p, hashes, ans)
+	}
 	ch := p.h.ch
 	var ids []int
 	for _, hs := range hashes {
@@ -402,15 +426,17 @@ func (p *e2ePeer) RequestBodies(hashes []common.Hash) error {
 	}
 	p.h.count("body_resp_" + respNames[kind])
 	t0 := time.Now()
-	err := p.h.d.DeliverBodies(p.id, bodies)
+	err := p.handOver(bodies)
 	if delay == 0 {
 		p.h.lat(t0)
 	}
 	if dup {
 		p.h.count("body_resp_duplicate")
+		ans.hold()
 		go func() {
+			defer ans.release()
 			time.Sleep(time.Duration(1+delay) * time.Millisecond)
-			p.h.d.DeliverBodies(p.id, bodies)
+			p.handOver(bodies)
 		}()
 	}
 	return err
@@ -450,34 +476,97 @@ func (h *e2eHarness) isDropped(id string) bool {
 
 // sync runs one Synchronise under a generous watchdog. ok=false: the watchdog fired. If cut > 0 and
 // the call has not returned after that long, the script disconnects the master (production:
-// removePeer -> UnregisterPeer -> cancel), which must end the sync.
+// removePeer -> UnregisterPeer -> cancel), which must end the sync. While the call lasts the
+// scheduler state is sampled for the dead state of deadlock.go; if it is found unchanged in
+// deadSamplesNeed consecutive samples the sync is ended the same way and kind is "deadlock"
+// (witness in h.dead).
 func (h *e2eHarness) sync(p *e2ePeer, cut time.Duration) (kind string, ok bool) {
 	h.master.Store(p.id)
 	h.rec.newSync()
+	h.dead = nil
+	blind := !h.settle()
+	if blind {
+		h.count("deadlock_oracle_blind_syncs")
+	}
+	base := h.led.all()
 	done := make(chan error, 1)
 	_, num := p.Head()
 	go func() { done <- h.d.Synchronise(p.id, num, downloader.FullSync) }()
-	if cut > 0 {
+	wait := func() (string, bool) {
 		select {
 		case err := <-done:
 			return downloader.VerifErrKind(err), true
-		case <-time.After(cut):
-			h.count("fault_attempt_cut_by_master_disconnect")
-			if busy := h.d.VerifBusyWithoutRequest(); len(busy) > 0 {
-				h.count("cut_with_peer_busy_without_request")
+		case <-time.After(e2eWatchdog()):
+			if os.Getenv("VERIF_C18_DUMP") != "" {
+				pprof.Lookup("goroutine").WriteTo(os.Stderr, 2)
 			}
-			h.drop(p.id)
+			return "watchdog", false
 		}
 	}
-	select {
-	case err := <-done:
-		return downloader.VerifErrKind(err), true
-	case <-time.After(e2eWatchdog()):
+	tick := time.NewTicker(deadSampleEvery)
+	defer tick.Stop()
+	start := time.Now()
+	limit := e2eWatchdog()
+	if cut > 0 {
+		limit = cut
+	}
+	var last *deadState
+	streak := 0
+	for {
+		select {
+		case err := <-done:
+			return downloader.VerifErrKind(err), true
+		case <-tick.C:
+		}
+		if time.Since(start) >= limit {
+			break
+		}
+		if blind {
+			continue
+		}
+		h.count("deadlock_oracle_samples")
+		ds := h.deadSample(base)
+		switch {
+		case ds == nil:
+			last, streak = nil, 0
+		case last != nil && last.key == ds.key:
+			streak++
+		default:
+			last, streak = ds, 1
+			h.count("deadlock_oracle_candidate_states")
+		}
+		if streak >= deadSamplesNeed {
+			ds.Pools = h.d.VerifPools()
+			h.dead = ds
+			h.count("deadlock_oracle_dead_states")
+			h.drop(p.id) // the master disconnects: ends the sync
+			if _, ok := wait(); !ok {
+				return "watchdog", false
+			}
+			return "deadlock", true
+		}
+	}
+	if cut == 0 {
 		if os.Getenv("VERIF_C18_DUMP") != "" {
 			pprof.Lookup("goroutine").WriteTo(os.Stderr, 2)
 		}
 		return "watchdog", false
 	}
+	h.count("fault_attempt_cut_by_master_disconnect")
+	if busy := h.d.VerifBusyWithoutRequest(); len(busy) > 0 {
+		h.count("cut_with_peer_busy_without_request")
+	}
+	h.drop(p.id)
+	return wait()
+}
+
+// reportDead reports the dead state found by sync.
+func (h *e2eHarness) reportDead(when string, outcomes []string) {
+	ds := h.dead
+	h.c.Violation("e2e-deadlock:peers-busy-without-request",
+		fmt.Sprintf("%s: the body download can never continue: %d body tasks are queued (blocks %v), no request is in flight, no packet is waiting, every registered peer is flagged busy without owning a request (or lacks every queued block), and nothing is left to arrive - every request the fetcher issued reached its peer, every peer finished answering, every packet handed over was handled. Honest peer(s) %v answered every request truthfully, have the queued blocks and are never asked again. The state was found unchanged in %d consecutive samples; only the end of the Synchronise call can clear the flags.",
+			when, ds.Sched.Queued, ds.Sched.QueuedNumbers, ds.Parked, deadSamplesNeed),
+		map[string]interface{}{"spec": h.sp, "directed": h.directed, "sync_outcomes": outcomes, "dead_state": ds, "imported": h.rec.height(), "log_tail": logTail(e2eLogTail())})
 }
 
 // stallMon measures how badly this process is being starved (environment health, not an oracle):
@@ -565,10 +654,18 @@ func runE2E(c *kit.Ctx) {
 	if c.Mine(0, "probe-stale-delivery") {
 		runStaleProbe(c)
 	}
+	nd := c.N(6, 300)
+	for i := 0; i < nd; i++ {
+		id := fmt.Sprintf("d%d", i)
+		if !c.Mine(1+i, id) {
+			continue
+		}
+		runDirectedCase(c, id, i)
+	}
 	n := c.N(30, 4000)
 	for i := 0; i < n; i++ {
 		id := fmt.Sprintf("e%d", i)
-		if !c.Mine(i+1, id) {
+		if !c.Mine(1+nd+i, id) {
 			continue
 		}
 		runE2ECase(c, id)
@@ -611,9 +708,7 @@ func runStaleProbe(c *kit.Ctx) {
 	sp := e2eSpec{Chain: chainSpec{N: 10, NLists: 3}, Peers: 1, Profiles: []int{0}, HdrProfiles: []int{0}, Have: []int{10}}
 	ch := genChain(r, sp.Chain, 1)
 	rec := &recChain{ch: ch, rc: &resultChecker{ch: ch}, db: youdb.NewMemDatabase()}
-	h := &e2eHarness{c: c, sp: sp, ch: ch, rec: rec, dropped: map[string]bool{}, counts: map[string]int{}}
-	h.master.Store("")
-	h.d = downloader.New(rec, nil, rec.db, h.drop, new(event.TypeMux))
+	h := newE2EHarness(c, sp, ch, rec)
 	defer h.d.Terminate()
 	pp := &probePeer{e2ePeer: e2ePeer{h: h, id: peerName(0), have: 10, r: r}}
 	h.d.RegisterPeer(pp.id, pp)
@@ -664,10 +759,9 @@ func runE2ECase(c *kit.Ctx, id string) {
 	c.Begin(id, sp)
 	ch := genChain(r, sp.Chain, sp.Peers)
 	rec := &recChain{ch: ch, rc: &resultChecker{ch: ch, next: sp.PreSynced}, top: sp.PreSynced, db: youdb.NewMemDatabase()}
-	h := &e2eHarness{c: c, sp: sp, ch: ch, rec: rec, dropped: map[string]bool{}, counts: map[string]int{}}
-	h.master.Store("")
-	h.d = downloader.New(rec, nil, rec.db, h.drop, new(event.TypeMux))
+	h := newE2EHarness(c, sp, ch, rec)
 	defer h.d.Terminate()
+	h.honestIDs[peerName(sp.Honest)] = true
 	for p := 0; p < sp.Peers; p++ {
 		ep := &e2ePeer{h: h, idx: p, id: peerName(p), have: sp.Have[p], profile: sp.Profiles[p], hdrProf: sp.HdrProfiles[p], r: rand.New(rand.NewSource(sp.Seeds[p]))}
 		h.peers = append(h.peers, ep)
@@ -737,6 +831,11 @@ func runE2ECase(c *kit.Ctx, id string) {
 			finish("violated")
 			return
 		}
+		if kind == "deadlock" {
+			h.reportDead("faulty sync attempt", outcomes)
+			finish("violated")
+			return
+		}
 		// dropped peers reconnect now and then
 		for _, p := range h.peers {
 			if h.isDropped(p.id) && r.Intn(2) == 0 {
@@ -773,6 +872,11 @@ func runE2ECase(c *kit.Ctx, id string) {
 			sawTimeout = true // every failure kind of an all-honest sync observed so far was a (converted) request timeout
 		}
 		if !checkImporter("after honest sync attempt") {
+			finish("violated")
+			return
+		}
+		if kind == "deadlock" {
+			h.reportDead("honest sync attempt", outcomes)
 			finish("violated")
 			return
 		}
